@@ -12,7 +12,9 @@ Import ListNotations.
 Section Cache.
   Variable X : Type.
   Variable eqb : X -> X -> bool.          (* pointer equality *)
-  Variable after : X -> X -> bool.        (* isNodeAfter(counted, node): node is later in the document *)
+  Variable after : X -> X -> bool.        (* isNodeAfter(counted, node): the counted node is later in the document
+                                             than the node (so the scan gives up at once unless the node is the last
+                                             one counted or later than it: a miss, never a wrong answer) *)
   Variable target_of : X -> option X.     (* ElemNumber::getTargetNode *)
   Variable prev : X -> option X.          (* ElemNumber::getPreviousNode *)
 
@@ -245,7 +247,8 @@ Section Tree.
      getCountString with the counters table of the instruction.  Nodes are compared by [leqb]
      (pointer equality) and by document position (isNodeAfter). *)
   Variable leqb : loc -> loc -> bool.
-  Definition lafter (c n : loc) : bool := pos c <? pos n.
+  (* DOMServices::isNodeAfter(node1, node2) = node1 comes after node2 (index1 > index2) *)
+  Definition lafter (c n : loc) : bool := pos n <? pos c.
 
   Definition cn_any (tbl : table loc) (l : loc) : option (table loc * nat) :=
     count_node loc leqb lafter target_any prev_any (S (pos l)) tbl l.
